@@ -1145,6 +1145,20 @@ func (f *fa) stdInvoke(in ssa.Instruction, v ssa.Value, c *ssa.CallCommon, all [
 	switch name {
 	case "(error).Error", "(fmt.Stringer).String":
 		return
+	}
+	// the inspection methods of error values asked for through an anonymous interface
+	// (err.(interface{ Temporary() bool })): no arguments, a plain result, by convention pure
+	if c.Method.Pkg() == nil || c.Method.Exported() {
+		if sig, ok := c.Method.Type().(*types.Signature); ok && sig.Params().Len() == 0 && sig.Results().Len() == 1 {
+			switch c.Method.Name() {
+			case "Temporary", "Timeout", "Unwrap":
+				if _, anon := c.Value.Type().(*types.Interface); anon {
+					return
+				}
+			}
+		}
+	}
+	switch name {
 	case "(io.Writer).Write", "(io.Reader).Read", "(io.ByteReader).ReadByte":
 		f.deepOpaque(in, all[0])
 		if name == "(io.Reader).Read" {
